@@ -72,7 +72,7 @@ fn gen(rng: &mut Rng, pools: &Pools, idx: u64) -> (Vec<char>, Vec<char>, RCfg, &
 }
 
 pub fn run(opts: &Opts, pools: &Pools, rep: &mut Report) {
-    let mut matcher = Matcher::default();
+    let mut matcher = crate::m_match::initial_matcher(opts.seed, opts.shard, 0);
     let range: Box<dyn Iterator<Item = u64>> = match opts.replay {
         Some(i) => Box::new(i..i + 1),
         None => Box::new(0..opts.cases),
@@ -83,6 +83,10 @@ pub fn run(opts: &Opts, pools: &Pools, rep: &mut Report) {
             break;
         }
         let mut rng = Rng::new(mix(&[opts.seed, opts.shard, idx, 4]));
+        if idx % 2048 == 2047 {
+            // constructed with one configuration, others are assigned in place afterwards
+            matcher = crate::m_match::initial_matcher(opts.seed, opts.shard, idx / 2048 + 1);
+        }
         let (hay, needle, cfg, kind) = gen(&mut rng, pools, idx);
         if needle.iter().any(|&c| ref_norm(c, &cfg) != c) {
             rep.count("skipped.needle-not-a-fixed-point");
